@@ -45,7 +45,7 @@ def main():
     shutil.copy("/verif/seeded/_harness/fakekernel_test.go", "/dev/null")
     demo_dst = os.path.join(wt, d, "zz_seed_test.go")
     shutil.copy(demo, demo_dst)
-    meta = {"property": prop, "seed": int(k) + koff, "round": {0: 1, 2: 2, 5: 3, 8: 4, 11: 5, 14: 6, 17: 7}.get(koff, 1 + koff), "demo_dir": d, "ran": [], "demo_flags": " ".join(race)}
+    meta = {"property": prop, "seed": int(k) + koff, "round": {0: 1, 2: 2, 5: 3, 8: 4, 11: 5, 14: 6, 17: 7, 20: 8}.get(koff, 1 + koff), "demo_dir": d, "ran": [], "demo_flags": " ".join(race)}
     rc1, out1 = sh(["go", "test"] + race + ["-vet=off", "-count=1", "-timeout", "300s", "-run", "Seed", "./" + d + "/"], wt)
     meta["ran"].append({"cmd": "clean tree: go test -vet=off -count=1 -run Seed ./%s/" % d, "exit": rc1})
     rc, out = sh(["git", "apply", "--whitespace=nowarn", patch], wt)
